@@ -68,6 +68,11 @@ CHECKS = {
                      "vector nesting, element type class (exact declared type for bare members), distinct storage per branch, tree name in descriptor = tree booked and filled, descriptor file name = "
                      "file runner.sh delivers, label-count mismatches raise.",
                 note="type expectations are classes except for bare declared members; conditional/Min/Max/** columns may be floating", ref="4/C03"),
+    "C18": dict(cat="exploration", technique="constants observed where they arrive in the executed job: output columns (bit-exact), hex-logged bank / attribute / tree / branch names and injected-function arguments at the model EDM",
+                text="Integers (incl. int32/int64 limits and beyond), floats in every repr() notation, booleans and strings over a hostile alphabet are placed as output values, bank names, "
+                     "attribute names, injected-function arguments, tree names, branch names and dict keys; the value received by the running job must equal the Python constant exactly, or "
+                     "translation must raise.",
+                note="NaN has no Python literal and is not formed; inf is formed as 1e999", ref="4/C18"),
 }
 
 PENDING_REASON = "check not built yet at this commit (work in progress, see DESIGN.md section 4)"
